@@ -744,7 +744,7 @@ func (s Source) MarshalJSON() ([]byte, error) {
 		}
 	}
 	if len(s.Content) > 0 {
-		empty = !JSONWriteNaturalLanguageProp(&b, "content", s.Content)
+		empty = !JSONWriteNaturalLanguageProp(&b, "content", s.Content) && empty
 	}
 	if !empty {
 		JSONWrite(&b, '}')
